@@ -128,8 +128,15 @@ def run(ctx, rep):
             cur, best = pop[0].copy(), pop[npop - 1].copy() + 0.5
             for F in (0.0, 0.5, 2.0):
                 cnt = 0
-                for script, out in MR.enumerate_outcomes(MU + name, lambda: (cur.copy(), best.copy(), pop.copy(), np.float64(F)), [], max_depth=k + 1):
+                ca, ba, pa = cur.copy(), best.copy(), pop.copy()     # the SAME arrays for every call: strategies must not write into them
+                for script, out in MR.enumerate_outcomes(MU + name, lambda: (ca, ba, pa, np.float64(F)), [], max_depth=k + 1):
                     cnt += 1
+                    if not (np.array_equal(ca, cur) and np.array_equal(ba, best) and np.array_equal(pa, pop)) or \
+                            np.shares_memory(out, ca) or np.shares_memory(out, ba) or np.shares_memory(out, pa):
+                        rep.problem(name, f"{name} modified (or returned a view of) its arguments — the best individual / population handed to it",
+                                    dict(fn=name, current=cur.tolist(), best=best.tolist(), population=pop.tolist(), F=F, draws=script),
+                                    f"{name}:inputs-modified", True, [ca.tolist(), ba.tolist()], [cur.tolist(), best.tolist()], "C07_donor_formula")
+                        ca, ba, pa = cur.copy(), best.copy(), pop.copy()
                     if ctx.quick and cnt > 400:
                         break
                     rs = []
@@ -152,7 +159,11 @@ def run(ctx, rep):
         cur, best, F = pop[0].copy(), pop[1].copy(), ctx.rng.choice([0.25, 0.5, 1.0])
         for code, name in enumerate(STRATS):
             MR.seed(seed)
-            oc = MR.compiled(MU + name)(cur.copy(), best.copy(), pop.copy(), np.float64(F))
+            c0, b0, p0 = cur.copy(), best.copy(), pop.copy()
+            oc = MR.compiled(MU + name)(c0, b0, p0, np.float64(F))
+            if not (np.array_equal(c0, cur) and np.array_equal(b0, best) and np.array_equal(p0, pop)) or np.shares_memory(oc, b0) or np.shares_memory(oc, c0):
+                rep.problem(name, f"compiled {name} modified (or returned a view of) its arguments", dict(fn=name, current=cur.tolist(), best=best.tolist(), population=pop.tolist(), F=F, seed=seed),
+                            f"{name}:inputs-modified", True, [c0.tolist(), b0.tolist()], [cur.tolist(), best.tolist()], "C07_donor_formula")
             MR.seed(seed)
             om, log = MR.run_log(MU + name, cur.copy(), best.copy(), pop.copy(), np.float64(F))
             rep.traces += 1
